@@ -12,6 +12,13 @@ theorem C06_registry_fully_extracted :
     (handlerRegistry ++ invokeRegistry).all (fun e => e.unknown.isEmpty && e.flows.all (fun f => match f.2 with | .other _ => false | _ => true)) = true := by
   decide
 
+/-- the predicates and helper functions that the model binds by name (hand-written transcriptions: `mappable`,
+    `canBeMapKey`, `isWrapper`, `hasAnonymousFuncs`, `stripUnused`, ... and the multi-statement predicate bodies) still
+    have the source text the model was written against, and every one-expression predicate body is one the
+    translator knows -/
+theorem C06_hand_modelled_sources_unchanged : modelledByHandChanged = [] := by
+  decide
+
 /-- first-match: the chosen entry's predicates all hold -/
 theorem classify_tests_hold (reg : List Entry) (c : PredCtx) (e : Entry) (h : classifyWith reg c = some e) :
     ∀ p ∈ e.tests, p.holds c = true := by
